@@ -8,8 +8,46 @@ from . import source
 from .contracts import REGISTRY
 
 
+GEN_LIMIT_S = 600          # wall-clock limit for generating the obligations of one function-case (path explosion guard)
+MUTANT_LIMIT_S = 240       # per built-in mutant (generation + solving); running out of it counts as "not proved"
+
+
+class _Timeout(Exception):
+    pass
+
+
+def _alarm(limit):
+    import signal
+
+    def handler(signum, frame):
+        raise _Timeout()
+    signal.signal(signal.SIGALRM, handler)
+    signal.setitimer(signal.ITIMER_REAL, limit)
+
+
+def _alarm_off():
+    import signal
+    signal.setitimer(signal.ITIMER_REAL, 0)
+
+
 def _gen(arg):
     """Phase 1 (per function-case): generate obligations from the current source; ship the open ones as SMT-LIB text."""
+    if getattr(_gen, "guard", True):
+        _alarm(GEN_LIMIT_S)
+        try:
+            return _gen_inner(arg)
+        except _Timeout:
+            key, ci, mutant = arg
+            c = REGISTRY[key]
+            return dict(key=key, case=c.case_names[ci], status="unsupported", detail="generation exceeded %d s (path explosion)" % GEN_LIMIT_S,
+                        obligations=[], notes=[], assumptions=[], used=[], paths=0, dead=0, covers=[], src=None, live=[], gen_time=float(GEN_LIMIT_S),
+                        wall=float(GEN_LIMIT_S), tier=c.tier, mutant=mutant)
+        finally:
+            _alarm_off()
+    return _gen_inner(arg)
+
+
+def _gen_inner(arg):
     key, ci, mutant = arg
     import contracts  # noqa: F401  (fills the registry in the worker)
     from .verify import verify_case
@@ -134,6 +172,21 @@ def _solve_retry(txt, z3_ms):
 def _mutant_job(arg):
     """One mutant of one function-case: generate, then solve obligation by obligation and stop at the first one that is
     not proved (that is all a mutant has to show).  For the baseline (m is None) returns (dead, live statement ranges)."""
+    key, ci, m, z3_ms = arg
+    if m is not None:
+        _gen.guard = False
+        _alarm(MUTANT_LIMIT_S)
+        try:
+            return _mutant_job_inner(arg)
+        except _Timeout:
+            return True                # could not be verified within the limit: not proved
+        finally:
+            _alarm_off()
+            _gen.guard = True
+    return _mutant_job_inner(arg)
+
+
+def _mutant_job_inner(arg):
     key, ci, m, z3_ms = arg
     r = _gen((key, ci, m))
     if m is None:
